@@ -77,6 +77,17 @@ def payload(kind, text):
     raise ValueError(kind)
 
 
+SUPPORTED_MEDIATYPES = ("image", "sticker", "audio", "ptt", "video", "gif", "location", "contact", "document", "url")
+# media types the library has no entity for: names seen in the wild, fragments and near-misses of the supported names, arbitrary words
+UNKNOWN_MEDIATYPE = S.Kind("UNKNOWN_MEDIATYPE", st.one_of(
+    st.sampled_from(["livelocation", "contact_array", "product", "poll", "vcard", "list", "order"]),
+    st.sampled_from(SUPPORTED_MEDIATYPES).flatmap(lambda w: st.tuples(st.integers(0, len(w) - 1), st.integers(1, len(w))).map(
+        lambda ij, _w=w: _w[ij[0]:ij[0] + ij[1]])),
+    st.sampled_from(SUPPORTED_MEDIATYPES).flatmap(lambda w: st.sampled_from([w + "s", w.upper(), "x" + w, w + "_v2", w[::-1]])),
+    st.text(alphabet="abcdefghijklmnopqrstuvwxyz_", min_size=1, max_size=8),
+).filter(lambda w: w and w not in SUPPORTED_MEDIATYPES))
+
+
 def run_case(case):
     out = Outcome()
     configs = case.get("configs") or ALL_CONFIGS
@@ -253,6 +264,25 @@ def _msg_attrs(group):
     return a
 
 
+def _enum_mediatype_fragments():
+    """every fragment (substring) of every supported media type name that is not itself a supported name, as the media type of a
+    message whose payload the library cannot present: exactly one receipt"""
+    seen = set()
+    for w in SUPPORTED_MEDIATYPES:
+        for i in range(len(w)):
+            for j in range(i + 1, len(w) + 1):
+                frag = w[i:j]
+                if frag in SUPPORTED_MEDIATYPES or frag in seen:
+                    continue
+                seen.add(frag)
+                group = len(seen) % 2 == 0
+                attrs = [["id", "frag-%d" % len(seen)], ["t", "1500000000"], ["type", "media"], ["notify", "n"]]
+                attrs += [["from", "4915100000021-1500000001@g.us"], ["participant", "4915100000022@s.whatsapp.net"]] if group \
+                    else [["from", "4915100000022@s.whatsapp.net"]]
+                yield {"sub": "ack", "kind": "media_unknown",
+                       "tree": {"t": "message", "a": attrs, "c": [{"t": "proto", "a": [["mediatype", frag]], "c": {"hex": payload("location", "").hex()}}]}}
+
+
 def plan(tier):
     quick = tier == "quick"
     n = 1 if quick else 15
@@ -299,7 +329,7 @@ def plan(tier):
         attrs = dict(_msg_attrs(group), type=S.CONST("media"))
         for pk in ("location", "unknown_fields") + (("location+skdm", "unknown_fields+skdm") if group else ()):
             blob = S.Kind("PAYLOAD_media_" + pk, S.TEXT.strategy.map(lambda s, _pk=pk: payload(_pk, s)), is_bytes=True)
-            shape = S.N("message", attrs, children=[S.N("proto", {"mediatype": S.WORD("livelocation", "contact_array", "product", "poll")}, data=blob)])
+            shape = S.N("message", attrs, children=[S.N("proto", {"mediatype": UNKNOWN_MEDIATYPE}, data=blob)])
             strategies.append(("media_unknown_%s_%s" % (pk, "group" if group else "direct"),
                                S.shape_strategy(shape).map(lambda t: {"sub": "ack", "kind": "media_unknown", "tree": S.tree_to_json(t)}), n))
     bad = S.N("notification", {"id": S.ID, "from": S.JID, "type": S.CONST("picture"), "t": S.TS, "notify": S.OPT(S.TEXT)},
@@ -307,7 +337,8 @@ def plan(tier):
     strategies.append(("picture_bad", S.shape_strategy(bad).map(lambda t: {"sub": "ack", "kind": "picture_bad", "tree": S.tree_to_json(t)}), n))
     return {
         "shards": 16,
-        "enumerations": [],
+        "enumerations": [("unknown_mediatype_fragments", _enum_mediatype_fragments)],
+        "exhaustive": ["unknown_mediatype_fragments"],
         "strategies": strategies,
         "shrink": "hypothesis",
         "budget_s": 200 if quick else 1800,
